@@ -18,7 +18,7 @@ cp /tmp/seed-$id/demo*_test.go /verif/seeded/$name/ 2>/dev/null
 python3 - "$id" "$name" "$what" "$res" <<'PY'
 import json,sys
 id,name,what,res=sys.argv[1:5]
-json.dump({"property":id,"kind":"seeded","origin":"independent sub-agent given only the property text and a scratch worktree","what":what,
+json.dump({"property":id[:3],"kind":"seeded","origin":"independent sub-agent given only the property text and a scratch worktree","what":what,
  "confirmed":"tools/seed_verify.sh in scratch copies of /repo: patch applies and compiles, go-sse's unedited suite passes, demonstration fails with the patch (3 runs) and passes without it (3 runs)","verify_output":res.splitlines()},open(f"/verif/seeded/{name}/meta.json","w"),indent=1)
 PY
 git -C /repo worktree remove --force /tmp/wt-$id 2>/dev/null; rm -rf /tmp/seed-$id /tmp/agent-prompt-$id.txt
